@@ -68,7 +68,7 @@ def bin_path(t):
 
 def target_env(scratch, stats=None, no_filter=False, probe=None):
     env = dict(os.environ)
-    env.update({"C08_DB": SMALL_DB, "C08_VERIF": lib.VERIF, "C08_SCRATCH": scratch})
+    env.update({"C08_DB": SMALL_DB, "C08_VERIF": lib.VERIF, "C08_SCRATCH": scratch, "C08_REPO": lib.REPO})
     env.pop("C08_STATS", None)
     env.pop("C08_NO_KNOWN_FILTER", None)
     env.pop("C08_PROBE", None)
@@ -314,7 +314,8 @@ def encode_case(case, cid):
 
 
 class Runner:
-    def __init__(self, scratch, no_filter=False, probe=None):
+    def __init__(self, scratch, no_filter=False, probe=None, case_timeout=API_CASE_TIMEOUT_S):
+        self.case_timeout = case_timeout
         self.dir = scratch
         shutil.rmtree(scratch, ignore_errors=True)
         os.makedirs(scratch)
@@ -366,7 +367,7 @@ class Runner:
         except (BrokenPipeError, OSError):
             pass
         while True:
-            l = self._line(API_CASE_TIMEOUT_S)
+            l = self._line(self.case_timeout)
             if l == "TIMEOUT":
                 self.close(kill=True)
                 return ("timeout",)
@@ -426,7 +427,8 @@ def get_runner(ctx):
 
 def run_fresh(ctx, cases, no_filter=False, probe=None):
     """run a sequence of cases in a new runner; -> result of the first case that does not answer 'ok'/'skipped', else the last result"""
-    r = Runner(os.path.join(ctx.scratch_dir(), "api_fresh"), no_filter=no_filter, probe=probe)
+    r = Runner(os.path.join(ctx.scratch_dir(), "api_fresh"), no_filter=no_filter, probe=probe,
+               case_timeout=900 if ctx.tier == "replay" else API_CASE_TIMEOUT_S)
     res = None
     try:
         for c in cases:
